@@ -25,7 +25,71 @@ pub struct SchedEngine;
 
 const SITE_BOUNDARY: u8 = 200;
 const SITE_NOT_STARTED: u8 = 201;
-const FOREIGN_BLOCK_TIMEOUT: Duration = Duration::from_secs(5);
+const SITE_IO_READ: u8 = 202;
+const SITE_IO_WRITE: u8 = 203;
+/// poll interval of parked threads (only used to detect a holder that blocks on something the
+/// simulator does not own; never influences a run in which that does not happen)
+const FOREIGN_BLOCK_POLL: Duration = Duration::from_millis(20);
+/// fallback: no decision for this long although the holder does not look blocked
+const FOREIGN_BLOCK_TIMEOUT: Duration = Duration::from_secs(20);
+
+thread_local! {
+    /// set by a simulated thread: reader/writer stubs of the harness yield to the scheduler
+    static IO_YIELD: std::cell::RefCell<Option<Box<dyn FnMut(u8)>>> = const { std::cell::RefCell::new(None) };
+}
+
+fn io_yield(site: u8) {
+    let taken = IO_YIELD.with(|c| c.borrow_mut().take());
+    if let Some(mut f) = taken {
+        f(site);
+        IO_YIELD.with(|c| {
+            let mut b = c.borrow_mut();
+            if b.is_none() {
+                *b = Some(f);
+            }
+        });
+    }
+}
+
+/// source of `recreated_zlib_chunks` in scheduled runs: every read call is a scheduling point
+/// (I/O is where real threads get descheduled)
+struct YieldingReader<'a> {
+    inner: std::io::Cursor<&'a [u8]>,
+}
+
+impl<'a> std::io::Read for YieldingReader<'a> {
+    fn read(&mut self, buf: &mut [u8]) -> std::io::Result<usize> {
+        io_yield(SITE_IO_READ);
+        self.inner.read(buf)
+    }
+}
+
+struct YieldingWriter {
+    out: Vec<u8>,
+}
+
+impl std::io::Write for YieldingWriter {
+    fn write(&mut self, buf: &[u8]) -> std::io::Result<usize> {
+        io_yield(SITE_IO_WRITE);
+        self.out.extend_from_slice(buf);
+        Ok(buf.len())
+    }
+    fn flush(&mut self) -> std::io::Result<()> {
+        Ok(())
+    }
+}
+
+/// is the OS thread sleeping (blocked in the kernel)? read from /proc; only consulted by the
+/// foreign-blocking monitor
+fn os_thread_sleeping(os_tid: i64) -> bool {
+    match std::fs::read_to_string(format!("/proc/self/task/{}/stat", os_tid)) {
+        Ok(s) => match s.rfind(')') {
+            Some(i) => matches!(s[i + 1..].trim_start().chars().next(), Some('S') | Some('D')),
+            None => false,
+        },
+        Err(_) => false,
+    }
+}
 
 #[derive(Clone, Copy, Debug, PartialEq, Eq, Hash)]
 pub enum CallKind {
@@ -161,10 +225,12 @@ pub fn perform(pool: &Pool, call: CallKind) -> CallOutput {
             CallKind::Expand(i) => preflate_rs::expand_zlib_chunks(&pool.files[i as usize], 0).map_err(|e| e.exit_code().as_integer_error_code()),
             CallKind::Recreate(i) => {
                 let Some(c) = &pool.containers[i as usize] else { return Err(-1000) };
-                let mut out = Vec::new();
-                let mut cur = std::io::Cursor::new(&c[..]);
-                preflate_rs::recreated_zlib_chunks(&mut cur, &mut out)
-                    .map(|_| out)
+                let mut w = YieldingWriter { out: Vec::new() };
+                let mut r = YieldingReader {
+                    inner: std::io::Cursor::new(&c[..]),
+                };
+                preflate_rs::recreated_zlib_chunks(&mut r, &mut w)
+                    .map(|_| w.out)
                     .map_err(|e| e.exit_code().as_integer_error_code())
             }
             CallKind::Decompress(i, verify) => preflate_rs::decompress_deflate_stream(&pool.streams[i as usize], verify, 0)
@@ -472,6 +538,12 @@ struct State {
     switches: u64,
     pairs: HashSet<(u8, u8)>,
     foreign_blocking: bool,
+    os_tid: Vec<i64>,
+    /// threads currently parked inside wait_for_baton (only they can act as monitor)
+    parked: Vec<bool>,
+    /// threads found blocked on something the simulator does not own; not schedulable until
+    /// they reach a yield point again
+    blocked: Vec<bool>,
 }
 
 struct Shared {
@@ -485,29 +557,34 @@ impl State {
         let idx = self.decisions;
         self.decisions += 1;
         let me_alive = self.alive[me];
+        let runnable = |st: &State, t: usize| st.alive[t] && !st.blocked[t];
         let fallback = |st: &State| -> usize {
             if me_alive {
                 me
             } else {
-                (0..n).map(|k| (me + 1 + k) % n).find(|&t| st.alive[t]).unwrap_or(me)
+                (0..n)
+                    .map(|k| (me + 1 + k) % n)
+                    .find(|&t| runnable(st, t))
+                    .or_else(|| (0..n).map(|k| (me + 1 + k) % n).find(|&t| st.alive[t]))
+                    .unwrap_or(me)
             }
         };
         if let Some(ex) = &self.explicit {
             if (idx as usize) < ex.len() {
                 let t = ex[idx as usize] as usize;
-                if t < n && self.alive[t] {
+                if t < n && runnable(self, t) {
                     return t;
                 }
             }
             return fallback(self);
         }
-        let others: Vec<usize> = (0..n).filter(|&t| t != me && self.alive[t]).collect();
+        let others: Vec<usize> = (0..n).filter(|&t| t != me && runnable(self, t)).collect();
         if others.is_empty() {
             return fallback(self);
         }
         match self.policy {
             Policy::Stay => fallback(self),
-            Policy::RoundRobin => (0..n).map(|k| (me + 1 + k) % n).find(|&t| self.alive[t]).unwrap_or(me),
+            Policy::RoundRobin => (0..n).map(|k| (me + 1 + k) % n).find(|&t| runnable(self, t)).unwrap_or(me),
             Policy::RandomWalk(p) => {
                 if !me_alive || self.rng.chance(p as u64, 100) {
                     others[self.rng.usize_below(others.len())]
@@ -520,7 +597,7 @@ impl State {
                     self.low_water -= 1;
                     self.prio[me] = self.low_water;
                 }
-                (0..n).filter(|&t| self.alive[t]).max_by_key(|&t| self.prio[t]).unwrap_or(me)
+                (0..n).filter(|&t| runnable(self, t)).max_by_key(|&t| self.prio[t]).unwrap_or(me)
             }
         }
     }
@@ -528,29 +605,60 @@ impl State {
 
 impl Shared {
     fn wait_for_baton<'a>(&'a self, mut st: std::sync::MutexGuard<'a, State>, tid: usize) -> std::sync::MutexGuard<'a, State> {
+        let mut seen = st.decisions;
+        let mut sleeping_polls = 0u32;
+        let mut waited = Duration::from_millis(0);
         loop {
             if st.current == tid {
+                st.parked[tid] = false;
                 return st;
             }
-            let seen = st.decisions;
-            let (g, to) = self.cv.wait_timeout(st, FOREIGN_BLOCK_TIMEOUT).unwrap();
+            st.parked[tid] = true;
+            let (g, to) = self.cv.wait_timeout(st, FOREIGN_BLOCK_POLL).unwrap();
             st = g;
-            if to.timed_out() && st.current != tid && st.decisions == seen {
-                // the holder made no decision for a long time: it blocks on something the
-                // simulator does not own (or spins without hook points). The lowest parked
-                // thread takes over; determinism of this run is no longer claimed.
-                let lowest = (0..st.alive.len()).find(|&t| st.alive[t] && t != st.current);
-                if lowest == Some(tid) {
-                    st.foreign_blocking = true;
-                    st.current = tid;
-                    return st;
-                }
+            if st.current == tid {
+                st.parked[tid] = false;
+                return st;
+            }
+            if !to.timed_out() {
+                continue;
+            }
+            if st.decisions != seen {
+                seen = st.decisions;
+                sleeping_polls = 0;
+                waited = Duration::from_millis(0);
+                continue;
+            }
+            waited += FOREIGN_BLOCK_POLL;
+            // only the lowest thread that is really parked here acts as monitor (a thread that
+            // itself blocks inside the library is alive but cannot poll)
+            let lowest = (0..st.alive.len()).find(|&t| st.alive[t] && st.parked[t] && t != st.current);
+            if lowest != Some(tid) {
+                continue;
+            }
+            let holder = st.current;
+            let holder_tid = st.os_tid.get(holder).copied().unwrap_or(0);
+            if holder_tid != 0 && os_thread_sleeping(holder_tid) {
+                sleeping_polls += 1;
+            } else {
+                sleeping_polls = 0;
+            }
+            if sleeping_polls >= 3 || waited >= FOREIGN_BLOCK_TIMEOUT {
+                // The holder made no decision and sleeps in the kernel: it blocks on something the
+                // simulator does not own (a lock inside the library that a parked thread holds).
+                // The monitor takes the baton over; determinism of this run is no longer claimed.
+                st.foreign_blocking = true;
+                st.blocked[holder] = true;
+                st.current = tid;
+                st.parked[tid] = false;
+                return st;
             }
         }
     }
 
     fn yield_point(&self, tid: usize, site: u8) {
         let mut st = self.m.lock().unwrap();
+        st.blocked[tid] = false;
         if st.current != tid {
             // we lost the baton to the foreign-blocking monitor; wait for our turn
             st.parked_site[tid] = site;
@@ -573,6 +681,7 @@ impl Shared {
     fn finish(&self, tid: usize) {
         let mut st = self.m.lock().unwrap();
         st.alive[tid] = false;
+        st.blocked[tid] = false;
         if st.current == tid && st.alive.iter().any(|a| *a) {
             let next = st.decide(tid);
             st.schedule.push(next as u16);
@@ -590,6 +699,7 @@ struct FinishGuard<'a> {
 impl<'a> Drop for FinishGuard<'a> {
     fn drop(&mut self) {
         verif_hooks::set_handler(None);
+        IO_YIELD.with(|c| *c.borrow_mut() = None);
         self.shared.finish(self.tid);
     }
 }
@@ -648,6 +758,9 @@ pub fn execute(pool: &Pool, reference: &Reference, plan: &SchedPlan) -> ExecOutc
             switches: 0,
             pairs: HashSet::new(),
             foreign_blocking: false,
+            os_tid: vec![0; t],
+            parked: vec![false; t],
+            blocked: vec![false; t],
         }),
         cv: Condvar::new(),
     };
@@ -681,10 +794,19 @@ pub fn execute(pool: &Pool, reference: &Reference, plan: &SchedPlan) -> ExecOutc
                 .stack_size(4 << 20)
                 .spawn_scoped(scope, move || {
                     {
-                        let st = shared.m.lock().unwrap();
+                        let mut st = shared.m.lock().unwrap();
+                        st.os_tid[tid] = unsafe { libc::syscall(libc::SYS_gettid) } as i64;
                         let _st = shared.wait_for_baton(st, tid);
                     }
                     let _guard = FinishGuard { shared, tid };
+                    let shared_ptr0: *const Shared = shared;
+                    IO_YIELD.with(|c| {
+                        *c.borrow_mut() = Some(Box::new(move |site: u8| {
+                            // SAFETY: removed in FinishGuard::drop before `shared` goes out of scope
+                            let sh = unsafe { &*shared_ptr0 };
+                            sh.yield_point(tid, site);
+                        }))
+                    });
                     // per-call hook accounting shared with the handler
                     let acct = Rc::new(Cell::new((0u64, u64::MAX)));
                     let acct2 = acct.clone();
@@ -760,6 +882,8 @@ fn site_name(s: u8) -> String {
     match s {
         SITE_BOUNDARY => "CallBoundary".into(),
         SITE_NOT_STARTED => "NotStarted".into(),
+        SITE_IO_READ => "SourceRead".into(),
+        SITE_IO_WRITE => "DestinationWrite".into(),
         x if (x as usize) < SITE_COUNT => {
             const ALL: [Site; SITE_COUNT] = [
                 Site::ParseBlock,
@@ -889,7 +1013,35 @@ fn pool_hash(pool: &Pool) -> u64 {
     d.0
 }
 
-fn gen_plan(rng: &mut Rng, reference: &Reference, tier: Tier, exec_no: u64) -> SchedPlan {
+fn gen_plan(rng: &mut Rng, reference: &Reference, tier: Tier, exec_no: u64, big_literals: bool) -> SchedPlan {
+    if big_literals && exec_no % 2 == 1 {
+        // targeted: several threads copying literals of more than 64 KiB at the same time
+        // (the literal copy loop is the only multi-pass loop of the reconstruction side that
+        // touches the caller's reader and writer)
+        let t = rng.range(3, 4) as usize;
+        let pool_calls: Vec<CallKind> = reference
+            .calls
+            .iter()
+            .cloned()
+            .filter(|c| matches!(c, CallKind::Recreate(_) | CallKind::DecompressZstd(_) | CallKind::WrapperDecompress(_)))
+            .collect();
+        let recreate_calls: Vec<CallKind> = pool_calls.iter().cloned().filter(|c| matches!(c, CallKind::Recreate(_))).collect();
+        if !recreate_calls.is_empty() {
+            let mut threads: Vec<Vec<CallKind>> = vec![Vec::new(); t];
+            for th in threads.iter_mut() {
+                for k in 0..4 {
+                    th.push(if k % 2 == 0 { *rng.pick(&recreate_calls) } else { *rng.pick(&pool_calls) });
+                }
+            }
+            return SchedPlan {
+                threads,
+                policy: Policy::RandomWalk(*rng.pick(&[30u8, 50, 70])),
+                seed: rng.next_u64(),
+                decim: 256,
+                explicit: None,
+            };
+        }
+    }
     let t = match tier {
         Tier::Quick => {
             if exec_no % 5 == 0 {
@@ -908,7 +1060,34 @@ fn gen_plan(rng: &mut Rng, reference: &Reference, tier: Tier, exec_no: u64) -> S
     let mut bag: Vec<CallKind> = Vec::new();
     let per_thread = rng.range(2, 5) as usize;
     let wanted = (t * per_thread).max(4);
-    let mut order: Vec<CallKind> = reference.calls.clone();
+    // swarm: each execution draws its calls from a seeded subset of the entry-point families
+    let family = rng.below(4);
+    let mut order: Vec<CallKind> = reference
+        .calls
+        .iter()
+        .cloned()
+        .filter(|c| match family {
+            // reconstruction side only
+            1 => matches!(
+                c,
+                CallKind::Recreate(_) | CallKind::DecompressZstd(_) | CallKind::WrapperDecompress(_) | CallKind::Recompress(_) | CallKind::WrapperDecompressTiny(_) | CallKind::DecompressZstdTiny(_)
+            ),
+            // analysis side only
+            2 => matches!(
+                c,
+                CallKind::Expand(_) | CallKind::CompressZstd(_) | CallKind::WrapperCompress(_) | CallKind::Decompress(..) | CallKind::WrapperCompressTiny(_) | CallKind::DecompressGarbage(_)
+            ),
+            // the C ABI and its error paths
+            3 => matches!(
+                c,
+                CallKind::WrapperCompress(_) | CallKind::WrapperDecompress(_) | CallKind::WrapperCompressTiny(_) | CallKind::WrapperDecompressTiny(_) | CallKind::Recreate(_)
+            ),
+            _ => true,
+        })
+        .collect();
+    if order.is_empty() {
+        order = reference.calls.clone();
+    }
     // seeded shuffle
     for i in (1..order.len()).rev() {
         let j = rng.usize_below(i + 1);
@@ -1141,7 +1320,7 @@ impl Engine for SchedEngine {
     }
 
     fn expected_probes(&self, _tier: Tier) -> Vec<&'static str> {
-        vec!["probe.switch_inside_token_loop", "probe.switch_after_table_boxed", "probe.fresh_process_reference_compared", "probe.single_thread_repeat"]
+        vec!["probe.switch_inside_token_loop", "probe.switch_after_table_boxed", "probe.switch_at_io_call", "probe.fresh_process_reference_compared", "probe.single_thread_repeat"]
     }
 
     fn aux(&self, args: &[String]) -> i32 {
@@ -1241,16 +1420,27 @@ impl Engine for SchedEngine {
         };
         let mut rng = Rng::new(derive(ctx.master_seed ^ 0x5c4ed2, ctx.job));
         let mut seen: HashSet<u64> = HashSet::new();
+        let big_literals = pool
+            .containers
+            .iter()
+            .flatten()
+            .filter(|c| crate::simio::parse_layout(c).max_literal > 65536)
+            .count()
+            >= 2;
+        if big_literals {
+            res.bump("probe.pool_with_two_literals_over_64k");
+        }
         for e in 0..nexec {
             if !res.violations.is_empty() {
                 break;
             }
-            let plan = gen_plan(&mut rng, &reference, ctx.tier, e);
+            let plan = gen_plan(&mut rng, &reference, ctx.tier, e, big_literals);
             announce_run(ctx, || replay_doc(&pool, gen, &plan));
             let out = execute(&pool, &reference, &plan);
             res.evaluations += 1;
             res.steps += out.hook_points + out.decisions;
-            digest.u64(out.digest);
+            // a run in which the monitor had to take the baton over is not claimed to be deterministic
+            digest.u64(if out.foreign_blocking { 0xf0e1 } else { out.digest });
             res.count("context_switches", out.switches);
             res.count("scheduler_decisions", out.decisions);
             res.bump(&format!("threads.{}", plan.threads.len()));
@@ -1283,6 +1473,9 @@ impl Engine for SchedEngine {
                 }
                 if *b == Site::HashTableBoxed as u8 || *b == Site::DepthTableBoxed as u8 {
                     res.bump("probe.switch_after_table_boxed");
+                }
+                if *b == SITE_IO_READ || *b == SITE_IO_WRITE {
+                    res.bump("probe.switch_at_io_call");
                 }
             }
             if res.samples.is_empty() && out.switches > 2 {
